@@ -20,6 +20,11 @@ UNIV_PROPS = {"Person": ["works_for", "member_of"], "Company": ["members", "sub"
 FAMILY_PROPS = ["related_to", "ancestor_of", "descendant_of", "knows", "known_by", "best_friend_of", "mentor_of"]
 SINGLE = {"works_for", "head_of"}
 
+# truth value of every model instance, switchable per case (a Symbol whose class defines __bool__ may be falsy while alive)
+FALSY = [False]
+for _k in (Person, Company, CEO, FPerson, sgmodel.GRegion):
+    _k.__bool__ = lambda self: not FALSY[0]
+
 EVENTS = []
 ADDR = {}     # address -> instance name (for instances of the current case)
 IDX = {}      # node index -> instance name
@@ -258,6 +263,7 @@ def handle(case):
     model = case["model"]
     res = {"steps": [], "how": []}
     vh.install(sink)
+    FALSY[0] = bool(case.get("falsy"))
     try:
         run_prefix(case.get("prefix"))
         EVENTS = []
@@ -274,6 +280,7 @@ def handle(case):
             res["steps"].append(out)
     finally:
         vh.install(None)
+        FALSY[0] = False
     res["events"] = EVENTS
     EVENTS = []
     inst.clear()
